@@ -27,28 +27,30 @@ def run(res, tier):
     kc.model_check(res, maxcyc=1)
     os.environ.setdefault("VERIF_WATCHDOG_S", "20")
     with scratch("c11_") as sdir:
-        c = kc.Corpus(res, "c11")
-        c.add(kc.loop_designs())
-        c.add(kc.loop_channel_designs(quick))
-        c.add(kc.rand_designs("c11r", 12 if quick else 250, want="falseloop",
-                              opts={"stmts_per_block": 3, "regs": 0.2}))
-        c.load(sdir)
-        c.run_modes(kernel.MODES, cycles=4 if quick else 8, seeds=(0,) if quick else (0, 1, 2),
-                    sched_only=lambda d: d.family == "oncecycle")
-        verdicts = c.validate("C11")
-        c.canaries(verdicts, n=8)
+        designs = kc.loop_designs() + kc.loop_channel_designs(quick) + \
+            kc.rand_designs("c11r", 12 if quick else 250, want="falseloop", opts={"stmts_per_block": 3, "regs": 0.2})
         fam = {}
-        for d in c.designs:
+        for d in designs:
             fam[d.family] = fam.get(d.family, 0) + 1
         res.note("families", fam)
-        raised = sum(1 for t in c.traces if any(e["k"] == "raised" for e in t["ev"]))
-        refused = sum(1 for t in c.traces if t["ev"][0]["k"] == "schedraise")
+        counts = {"raised": 0, "refused": 0}
+
+        def drive(c):
+            c.run_modes(kernel.MODES, cycles=4 if quick else 8, seeds=(0,) if quick else (0, 1, 2),
+                        sched_only=lambda d: d.family == "oncecycle")
+
+        def on_chunk(c):
+            counts["raised"] += sum(1 for t in c.traces if any(e["k"] == "raised" for e in t["ev"]))
+            counts["refused"] += sum(1 for t in c.traces if t["ev"][0]["k"] == "schedraise")
+        c, ndesigns = kc.run_chunked(res, "c11", "C11", sdir, designs, len(designs) if quick else 100, drive,
+                                     canaries_n=8, on_chunk=on_chunk)
+        raised, refused = counts["raised"], counts["refused"]
         res.note("runtime_cyclic_errors_validated", raised)
         res.note("schedule_time_refusals_validated", refused)
         if raised == 0 or refused == 0:
             raise kc.MachineryError("no raise / refusal was exercised (vacuous)")
         res.sample({"design": c.djs[0]["name"], "source": c.designs[0].py_source(),
                     "passes": [e["b"] for e in c.traces[1]["ev"] if e["k"] == "step"][:24]})
-    res.note("designs", len(c.designs))
+    res.note("designs", ndesigns)
     res.note("rule", "a case = (loop design, scheduler); every SCC pass is validated step by step")
     res.assume("cyclic-capable schedulers: DynamicSchedulePass (DefaultPassGroup) and Mamba2020")
